@@ -185,6 +185,14 @@ def czt2 (e : R → K) (nrm : R → K) (w0 w1 : AxisWiring) (gl0 gl1 : CztGlue) 
   let x := idft2KL e K' L GBH
   tab2 samples.1 samples.2 (fun k l => (rd2 x k l * cztA e N α1 sx l) * cztA e M α0 sy k)
 
+/-- element-wise map of a 2-D array -/
+def mapArr2 (cj : K → K) (a : Array (Array K)) : Array (Array K) := a.map (fun r => r.map cj)
+
+/-- `ChirpZTransformExecutor.iczt2`: `conj(czt2(conj(ary)))` (`cj` = complex conjugation) -/
+def iczt2 (cj : K → K) (e : R → K) (nrm : R → K) (w0 w1 : AxisWiring) (gl0 gl1 : CztGlue) (shp samples KL : Nat × Nat)
+    (α0 α1 : R) (shift : R × R) (f : Array (Array K)) : Array (Array K) :=
+  mapArr2 cj (czt2 e nrm w0 w1 gl0 gl1 shp samples KL α0 α1 shift (mapArr2 cj f))
+
 /-! ## FFT route: `fftshift(fft2(ifftshift(pad2d(x)), norm='ortho'))` -/
 
 /-- constant-mode pad of a vector of length `n` into length `N'`, data starting at `off` -/
